@@ -481,10 +481,18 @@ def _pair_disjoint(prog):
                          f"uniform pairs must be the even/odd positions of a shuffled arange(N_chains): {txt}", REL, up.lineno))
     # (d) swap() takes its pairs from one of the checked generators, once, after the snapshot
     c3_, sw = prog.method("ParallelTempering", "swap")
-    srcs = [U(s.value) for s in sw.body if isinstance(s, ast.Assign) and U(s.targets[0]) == "proposed_swaps"]
-    ok = len(srcs) == 1 and srcs[0] in ("self.tight_pairs()", "self.uniform_pairs()")
+    # decided on the list the exchange loop actually walks (its resolved term: an extension `pairs += more`, a concatenation or a
+    # filter after the call is part of the term), not on the name it is held in
+    rsw = Resolver(sw, prog, c3_.module, c3_)
+    loops_sw = [l for l in ast.walk(sw) if isinstance(l, ast.For) and isinstance(l.target, ast.Tuple) and len(l.target.elts) == 2
+                and any(isinstance(n, ast.Call) and isinstance(n.func, ast.Attribute) and n.func.attr == "send" for n in ast.walk(l))]
+    srcs = [str(U(rsw.term(l.iter, l))) for l in loops_sw]
+    edited = [U(n) for n in ast.walk(sw) if isinstance(n, ast.Call) and isinstance(n.func, ast.Attribute)
+              and n.func.attr in ("append", "extend", "insert") and loops_sw and U(n.func.value) == U(loops_sw[0].iter)]
+    ok = len(srcs) == 1 and srcs[0] in ("self.tight_pairs()", "self.uniform_pairs()") and not edited
     out.append(struct_ob("pair-disjoint", qual(c3_, sw) + "[source]", ok,
-                         f"swap must take its proposed pairs from tight_pairs() or uniform_pairs(): {srcs}", REL, sw.lineno))
+                         f"the exchange loop must walk exactly the result of one call of tight_pairs() or uniform_pairs() (two disjoint "
+                         f"lists joined are not disjoint): it walks {srcs} {('edited by ' + str(edited)) if edited else ''}", REL, sw.lineno))
     return out
 
 
@@ -644,6 +652,20 @@ def _ladder_source(prog, mi, pt, tp):
     lay = Layouts(init, prog, mi, pt).state.get("self.inv_temps")
     want = (("each", ("iter", chains), f"va0.{attr}"),)
     ok = lay == want
+    # ladder position k and pipe k belong to the same chain: the list the ladder was read from is the list the workers are started
+    # from - it is neither re-bound nor re-ordered in between
+    edits = [U(st)[:80] for st in ast.walk(init)
+             if (isinstance(st, ast.Assign) and any(U(t) == chains for t in st.targets))
+             or (isinstance(st, ast.Expr) and isinstance(st.value, ast.Call) and isinstance(st.value.func, ast.Attribute)
+                 and U(st.value.func.value) == chains and st.value.func.attr in ("sort", "reverse", "pop", "insert", "remove", "append", "extend"))
+             or (isinstance(st, ast.Expr) and isinstance(st.value, ast.Call) and U(st.value.func).split(".")[-1] == "shuffle"
+                 and st.value.args and U(st.value.args[0]) == chains)]
+    spawn = [l for l in ast.walk(init) if isinstance(l, ast.For) and any(isinstance(n, ast.Call) and U(n.func) in ("Pipe", "Process") for n in ast.walk(l))]
+    if ok and (edits or not spawn or U(spawn[0].iter) != chains):
+        return struct_ob("ladder-source", qual(pt, init), False,
+                         f"the temperature ladder is read from `{chains}` as given, but the workers are started from "
+                         f"`{U(spawn[0].iter) if spawn else None}`" + (f" after `{edits[0]}`" if edits else "") + ": position k of the ladder and pipe k "
+                         f"no longer belong to the same chain, so exchanges are tested with another chain's temperature", REL, init.lineno)
     return struct_ob("ladder-source", qual(pt, init), ok,
                      f"self.inv_temps must be [chain.{attr} for chain in {chains}] - the factor every chain (and the worker, when it "
                      f"stores a received point) scales its log-probabilities with; it is {show(lay) if lay not in (None, UNKNOWN) else lay}: a "
